@@ -318,7 +318,7 @@ theorem exec_inv_msg (s : State) (op : Op) (h : Inv s) (hw : WF s op) (hvb : val
     | some e => rw [hv] at this; simp at this
   | modcreate id mod svc provs cons cap timeout super rep freq total inputOk running thr =>
     show Inv (createCtx s id mod svc provs cons cap timeout super rep freq total inputOk running thr).1
-    obtain ⟨hc, hfresh, hmod⟩ : ¬ s.modAcct cons ∧ id ∉ s.usedIds ∧ mod ≠ "" := hw
+    obtain ⟨hc, hfresh, hmod, _⟩ : ¬ s.modAcct cons ∧ id ∉ s.usedIds ∧ mod ≠ "" ∧ cons ≠ "" := hw
     exact createCtx_inv s id mod svc provs cons cap timeout super rep freq total inputOk running thr h hfresh hc
       (fun e => absurd e hmod)
   | respond r p code out => exact respond_inv s r p code out h
